@@ -58,6 +58,8 @@ pub struct Prop {
     pub key: String,
     pub model: M,
     pub cap: Cap,
+    /// the value reaches the sink through the ambient context (buffered with `to_shared`)
+    pub buffered: bool,
 }
 
 #[derive(Clone, Copy, Debug, PartialEq, Eq, Hash)]
@@ -79,6 +81,15 @@ pub struct ModelEvent {
     pub kind: Kind,
     /// name of the directed case, if this event is one
     pub directed: Option<String>,
+    /// ambient context frames, outermost first; each frame has unique keys
+    pub ambient: Vec<Vec<Prop>>,
+    /// what the runtime's clock reads when the event is emitted (used when `extent` is `None`)
+    pub clock: Option<u64>,
+    /// a hostile extent as (secs, nanos) pairs (start, end): inverted, beyond u64 nanoseconds, MAX.
+    /// When set it replaces `extent`, and timestamps are unconstrained beyond well-formedness.
+    pub wild: Option<(Option<(u64, u32)>, (u64, u32))>,
+    /// `Some(k)`: the event is produced by hand-written macro call site `k`
+    pub macro_site: Option<usize>,
 }
 
 pub enum Store {
@@ -92,7 +103,7 @@ pub enum Store {
 
 impl Prop {
     pub fn new(key: &str, model: M, cap: Cap) -> Prop {
-        Prop { key: key.to_string(), model, cap }
+        Prop { key: key.to_string(), model, cap, buffered: false }
     }
 
     pub fn store(&self) -> Store {
@@ -190,7 +201,7 @@ impl Prop {
     /// "Plain" values render the same through every formatter: usable in template holes.
     pub fn plain_text(&self) -> Option<String> {
         match (&self.model, self.cap) {
-            (M::Str(s), Cap::Typed | Cap::Display) if s.chars().all(|c| c.is_ascii_alphanumeric() || c == ' ') => Some(s.clone()),
+            (M::Str(s), Cap::Typed | Cap::Display) if s.chars().all(|c| c.is_ascii_alphanumeric() || c == ' ' || c == '-') => Some(s.clone()),
             (m, Cap::Typed | Cap::Display) if m.as_int().is_some() => m.int_text(),
             (M::Bool(b), Cap::Typed | Cap::Display) => Some(b.to_string()),
             _ => None,
@@ -207,15 +218,35 @@ pub const COMPOUND_SHAPES: &[&str] = &["bytes", "seq", "tuple", "map", "struct",
 pub const OTLP_PANIC_SHAPES: &[&str] = &["bytes", "seq", "tuple", "map", "struct", "tuple-variant", "struct-variant"];
 
 impl ModelEvent {
-    /// First property with `key` (first value wins everywhere).
+    /// The properties a sink sees, in precedence order: the event's own, then the ambient frames
+    /// from the innermost to the outermost.
+    pub fn effective(&self) -> impl Iterator<Item = &Prop> {
+        self.props.iter().chain(self.ambient.iter().rev().flat_map(|f| f.iter()))
+    }
+
+    /// First property with `key` (first value wins everywhere; the event wins over ambient frames,
+    /// inner frames over outer ones).
     pub fn first(&self, key: &str) -> Option<&Prop> {
-        self.props.iter().find(|p| p.key == key)
+        self.effective().find(|p| p.key == key)
+    }
+
+    /// The extent the sink sees: the event's own or, through a runtime, the clock's reading.
+    pub fn eff_extent(&self) -> Option<(Option<u64>, u64)> {
+        self.extent.or(self.clock.map(|c| (None, c)))
+    }
+
+    /// Is the (possibly hostile) extent a range?
+    pub fn is_range(&self) -> bool {
+        match self.wild {
+            Some((start, _)) => start.is_some(),
+            None => matches!(self.eff_extent(), Some((Some(_), _))),
+        }
     }
 
     /// Distinct keys in first-occurrence order.
     pub fn keys(&self) -> Vec<&str> {
         let mut out: Vec<&str> = Vec::new();
-        for p in &self.props {
+        for p in self.effective() {
             if !out.contains(&p.key.as_str()) {
                 out.push(&p.key);
             }
@@ -224,7 +255,7 @@ impl ModelEvent {
     }
 
     pub fn has_duplicates(&self) -> bool {
-        self.keys().len() != self.props.len()
+        self.keys().len() != self.effective().count()
     }
 
     pub fn tpl_text(&self) -> String {
@@ -304,9 +335,37 @@ impl ModelEvent {
     pub fn describe(&self) -> Json {
         serde_json::json!({
             "vid": self.vid, "mdl": self.mdl, "tpl": self.tpl_text(), "extent": self.extent, "kind": format!("{:?}", self.kind),
-            "directed": self.directed,
+            "directed": self.directed, "clock": self.clock, "wild": self.wild, "macro_site": self.macro_site,
+            "ambient": self.ambient.iter().map(|f| f.iter().map(|p| p.describe()).collect::<Vec<_>>()).collect::<Vec<_>>(),
             "props": self.props.iter().map(|p| p.describe()).collect::<Vec<_>>(),
         })
+    }
+
+    /// The extent the real event is built with.
+    pub fn emit_extent(&self) -> Option<emit::Extent> {
+        let ts = |(s, n): (u64, u32)| emit::Timestamp::from_unix(std::time::Duration::new(s, n)).expect("timestamp in range");
+        match self.wild {
+            Some((Some(a), b)) => Some(emit::Extent::range(ts(a)..ts(b))),
+            Some((None, b)) => Some(emit::Extent::point(ts(b))),
+            None => self.extent.map(|(start, end)| match start {
+                Some(s) => emit::Extent::range(ts_from_nanos(s)..ts_from_nanos(end)),
+                None => emit::Extent::point(ts_from_nanos(end)),
+            }),
+        }
+    }
+
+    /// Push the ambient frames (outermost first) on `ctxt`, nested, and run `f` inside the innermost.
+    pub fn with_frames<C: emit::Ctxt + Copy>(&self, ctxt: C, depth: usize, f: &mut dyn FnMut()) {
+        if depth == self.ambient.len() {
+            f();
+            return;
+        }
+        let frame_props = &self.ambient[depth];
+        let stores: Vec<Store> = frame_props.iter().map(|p| p.store()).collect();
+        let props: Vec<(emit::Str, Value)> = frame_props.iter().zip(&stores).map(|(p, s)| (emit::Str::new_ref(&p.key), p.value(s))).collect();
+        let mut frame = emit::Frame::push(ctxt, &props[..]);
+        let _guard = frame.enter();
+        self.with_frames(ctxt, depth + 1, f)
     }
 
     /// Build the real event and hand it to `f`.
@@ -316,10 +375,7 @@ impl ModelEvent {
         let parts: Vec<emit::template::Part> =
             self.parts.iter().map(|(hole, t)| if *hole { emit::template::Part::hole_ref(t) } else { emit::template::Part::text_ref(t) }).collect();
         let tpl = emit::Template::new_ref(&parts);
-        let extent: Option<emit::Extent> = self.extent.map(|(start, end)| match start {
-            Some(s) => emit::Extent::range(ts_from_nanos(s)..ts_from_nanos(end)),
-            None => emit::Extent::point(ts_from_nanos(end)),
-        });
+        let extent: Option<emit::Extent> = self.emit_extent();
         let mdl = emit::Path::new_ref(&self.mdl).expect("valid module path");
         let evt = emit::Event::new(mdl, tpl, extent, &props[..]);
         f(&evt)
@@ -578,7 +634,7 @@ pub fn gen_event(g: &mut Rng, seed: u64, section: &str, idx: u64, compound_keys:
     let texts = ["event ", "did a thing", " with ", "ünïcode ✓ ", "quote \" and \\ ", "", " done", "{{not a hole}} "];
     parts.push((false, format!("{} ", vid)));
     let plain: Vec<String> = {
-        let tmp = ModelEvent { vid: vid.clone(), mdl: String::new(), parts: Vec::new(), extent: None, props: props.clone(), kind, directed: None };
+        let tmp = ModelEvent { vid: vid.clone(), mdl: String::new(), parts: Vec::new(), extent: None, props: props.clone(), kind, directed: None, ambient: Vec::new(), clock: None, wild: None, macro_site: None };
         tmp.keys().into_iter().filter(|k| tmp.first(k).unwrap().plain_text().is_some() && !k.contains(['{', '}', '\n', '\t'])).map(|k| k.to_string()).collect()
     };
     for _ in 0..g.usize(4) {
@@ -588,7 +644,7 @@ pub fn gen_event(g: &mut Rng, seed: u64, section: &str, idx: u64, compound_keys:
         }
     }
 
-    ModelEvent { vid, mdl: (*g.pick(MODULES)).to_string(), parts, extent, props, kind, directed: None }
+    ModelEvent { vid, mdl: (*g.pick(MODULES)).to_string(), parts, extent, props, kind, directed: None, ambient: Vec::new(), clock: None, wild: None, macro_site: None }
 }
 
 /// The directed events that re-observe the known compound-map-key findings: one per key shape.
@@ -620,6 +676,10 @@ pub fn directed_compound_events(seed: u64) -> Vec<ModelEvent> {
                 ],
                 kind: Kind::Log,
                 directed: Some(format!("compound-key:{}", shape)),
+                ambient: Vec::new(),
+                clock: None,
+                wild: None,
+                macro_site: None,
             });
         }
     }
@@ -649,6 +709,10 @@ pub fn directed_other_known(seed: u64) -> Vec<ModelEvent> {
                 props: vec![Prop::new("vid", M::Str(vid.clone()), Cap::Typed), Prop::new("m", m.clone(), cap), Prop::new("after", M::I32(1), Cap::Typed)],
                 kind: Kind::Log,
                 directed: Some(name.to_string()),
+                ambient: Vec::new(),
+                clock: None,
+                wild: None,
+                macro_site: None,
             });
         }
     }
@@ -682,6 +746,10 @@ pub fn directed_scalar_key_events(seed: u64) -> Vec<ModelEvent> {
                     props,
                     kind: ek,
                     directed: Some(format!("scalar-key:{:?}", kind)),
+                    ambient: Vec::new(),
+                    clock: None,
+                    wild: None,
+                    macro_site: None,
                 });
             }
         }
@@ -710,5 +778,167 @@ pub fn directed_metric_dedup(seed: u64) -> ModelEvent {
         ],
         kind: Kind::Metric,
         directed: Some("metric-dedup".into()),
+        ambient: Vec::new(),
+        clock: None,
+        wild: None,
+        macro_site: None,
     }
+}
+
+// ---------------------------------------------------------------------------
+// events emitted through a runtime with ambient context, hostile extents
+// ---------------------------------------------------------------------------
+
+const AMBIENT_WELL_KNOWN: &[&str] = &["lvl", "trace_id", "span_id", "span_parent", "err"];
+
+fn gen_ambient_prop(g: &mut Rng, key: &str) -> Prop {
+    let mut p = if AMBIENT_WELL_KNOWN.contains(&key) || ["span_name", "metric_name", "metric_unit", "metric_agg"].contains(&key) {
+        gen_well_known(g, key)
+    } else {
+        let m = gen_user_value(g, false);
+        let cap = cap_for(g, &m);
+        Prop::new(key, m, cap)
+    };
+    p.buffered = true;
+    p
+}
+
+/// 1–3 nested frames holding some of the event's own keys (with other values) plus other keys.
+pub fn gen_ambient(g: &mut Rng, own: &[Prop]) -> Vec<Vec<Prop>> {
+    let depth = 1 + g.usize(3);
+    let own_keys: Vec<String> = own.iter().map(|p| p.key.clone()).filter(|k| !["evt_kind", "metric_value"].contains(&k.as_str())).collect();
+    let mut frames = Vec::new();
+    for _ in 0..depth {
+        let mut frame: Vec<Prop> = Vec::new();
+        for _ in 0..1 + g.usize(4) {
+            let key: String = match g.below(5) {
+                0 | 1 if !own_keys.is_empty() => g.pick(&own_keys).clone(),
+                2 => (*g.pick(AMBIENT_WELL_KNOWN)).to_string(),
+                _ => (*g.pick(USER_KEYS)).to_string(),
+            };
+            if frame.iter().any(|p| p.key == key) {
+                continue;
+            }
+            frame.push(gen_ambient_prop(g, &key));
+        }
+        frames.push(frame);
+    }
+    frames
+}
+
+pub const MACRO_SITES: usize = 7;
+
+/// The model of what hand-written macro call site `k` (see `macro_site` in c13.rs) emits.
+pub fn gen_macro_event(g: &mut Rng, seed: u64, section: &str, idx: u64) -> ModelEvent {
+    let k = g.usize(MACRO_SITES);
+    let vid = format!("v{}-{}-{}", seed, section, idx);
+    let a = M::I64(gen_i64(g));
+    let user = M::Str(["Rust", "user 42", "x"][g.usize(3)].to_string());
+    let data = gen_structured(g, &GenCfg::new(2, 3).with_keys(&scalar_and_text_keys()));
+    let err = M::Error(gen_error(g));
+    let vidp = Prop::new("vid", M::Str(vid.clone()), Cap::Typed);
+    let lvl = |l: &str| Prop::new("lvl", M::Str(l.into()), Cap::Level);
+    let hole = |k: &str| (true, k.to_string());
+    let text = |t: &str| (false, t.to_string());
+    let clock = BASE_NANOS + 500_000_000_000 + idx * 1_000_003;
+    let (parts, props, extent): (Vec<(bool, String)>, Vec<Prop>, Option<(Option<u64>, u64)>) = match k {
+        0 => (vec![hole("vid"), text(" macro emit "), hole("a")], vec![vidp, Prop::new("a", a, Cap::Typed), Prop::new("user", user, Cap::Typed)], None),
+        1 => (vec![hole("vid"), text(" macro info")], vec![vidp, Prop::new("data", data, Cap::Serde), Prop::new("a", a, Cap::Typed), lvl("info")], None),
+        2 => (vec![hole("vid"), text(" macro warn "), hole("user")], vec![vidp, Prop::new("user", user, Cap::Typed), lvl("warn")], None),
+        3 => (vec![hole("vid"), text(" macro error")], vec![vidp, Prop::new("err", err, Cap::Error), lvl("error")], None),
+        4 => (vec![hole("vid"), text(" macro debug")], vec![vidp, Prop::new("data", data, Cap::Sval), Prop::new("key with space", a, Cap::Typed), lvl("debug")], None),
+        5 => (vec![hole("vid"), text(" macro extent")], vec![vidp, Prop::new("a", a, Cap::Typed)], Some((None, clock + 17))),
+        _ => (
+            vec![hole("vid"), text(" macro span")],
+            vec![vidp, Prop::new("evt_kind", M::Str("span".into()), Cap::Kind), Prop::new("user", user, Cap::Display)],
+            Some((Some(clock - 1_000_000), clock)),
+        ),
+    };
+    let ambient = gen_ambient(g, &props);
+    ModelEvent {
+        vid,
+        mdl: "c13".into(),
+        parts,
+        extent,
+        props,
+        kind: if k == 6 { Kind::Span } else { Kind::Log },
+        directed: None,
+        ambient,
+        clock: Some(clock),
+        wild: None,
+        macro_site: Some(k),
+    }
+}
+
+/// An event for the runtime section: every third one comes from a macro call site, the others are
+/// generated events handed to `rt.emit(..)` / `emit!(rt, evt: ..)`.
+pub fn gen_rt_event(g: &mut Rng, seed: u64, section: &str, idx: u64) -> ModelEvent {
+    if idx % 3 == 2 {
+        return gen_macro_event(g, seed, section, idx);
+    }
+    let mut me = gen_event(g, seed, section, idx, false);
+    me.ambient = gen_ambient(g, &me.props);
+    me.clock = Some(BASE_NANOS + 500_000_000_000 + idx * 1_000_003);
+    me
+}
+
+const U64_NANOS_SECS: u64 = 18_446_744_073; // u64::MAX nanoseconds ≈ 2554-07-21T23:34:33Z
+const MAX_SECS: u64 = 253_402_300_799; // 9999-12-31T23:59:59Z
+
+fn wild_instant(g: &mut Rng) -> (u64, u32) {
+    match g.below(9) {
+        0 => (0, 0),
+        1 => (MAX_SECS, 999_999_999),
+        2 => (U64_NANOS_SECS, 709_551_615),
+        3 => (U64_NANOS_SECS, 709_551_616),
+        4 => (U64_NANOS_SECS + 1 + g.below(1_000_000), g.below(1_000_000_000) as u32),
+        5 => (U64_NANOS_SECS - g.below(100), g.below(1_000_000_000) as u32),
+        6 => (MAX_SECS - g.below(100_000), 0),
+        7 => (2 * U64_NANOS_SECS + g.below(10), 5),
+        _ => (1_700_000_000 + g.below(1_000_000), g.below(1_000_000_000) as u32),
+    }
+}
+
+/// Events with hostile extents: inverted and zero-length ranges, MIN / MAX, instants whose unix
+/// nanoseconds do not fit in u64 — on every kind, with a bias to sequence-valued metrics on every
+/// aggregation (incl. absent / unknown `metric_agg`).
+pub fn gen_wild_event(g: &mut Rng, seed: u64, section: &str, idx: u64) -> ModelEvent {
+    let mut me = gen_event(g, seed, section, idx, false);
+    if g.chance(1, 2) {
+        // a sequence-valued metric
+        me.kind = Kind::Metric;
+        me.props.retain(|p| !["evt_kind", "metric_value", "metric_agg", "metric_name"].contains(&p.key.as_str()));
+        me.props.push(Prop::new("evt_kind", M::Str("metric".into()), Cap::Kind));
+        me.props.push(Prop::new("metric_name", M::Str("wild".into()), Cap::Typed));
+        let n = g.usize(12);
+        let ints = g.bool();
+        let seq = (0..n).map(|_| if ints { M::I64(g.irange(-5, 500)) } else { M::F64((g.irange(-50, 5000) as f64) / 4.0) }).collect();
+        me.props.push(Prop::new("metric_value", M::Seq(seq), *g.pick(&[Cap::Serde, Cap::Sval, Cap::SharedSval])));
+        match g.below(5) {
+            0 => {}
+            1 => me.props.push(Prop::new("metric_agg", M::Str("count".into()), Cap::Typed)),
+            2 => me.props.push(Prop::new("metric_agg", M::Str("sum".into()), Cap::Typed)),
+            3 => me.props.push(Prop::new("metric_agg", M::Str((*g.pick(&["last", "min", "max"])).into()), Cap::Typed)),
+            _ => me.props.push(Prop::new("metric_agg", M::Str("no such aggregation".into()), Cap::Typed)),
+        }
+    }
+    let b = wild_instant(g);
+    me.wild = Some(match g.below(6) {
+        0 => (None, b),
+        1 => (Some(b), b),
+        _ => {
+            let a = wild_instant(g);
+            // both orders: well-ordered, inverted, straddling the u64 boundary
+            (Some(a), b)
+        }
+    });
+    if me.kind == Kind::Span && me.wild.map_or(false, |w| w.0.is_none()) {
+        me.wild = me.wild.map(|w| (Some(w.1), w.1));
+    }
+    me.extent = None;
+    // the properties changed after the template was drawn: keep only holes that still bind plain values
+    let keep: Vec<bool> = me.parts.iter().map(|(hole, k)| !*hole || me.first(k).and_then(|p| p.plain_text()).is_some()).collect();
+    let mut it = keep.into_iter();
+    me.parts.retain(|_| it.next().unwrap());
+    me
 }
